@@ -498,3 +498,26 @@ Proof.
   intros H1 H2. rewrite acc_sum_app.
   rewrite (tdvp_accepted_steps_partition _ _ _ _ _ _ H1), (tdvp_accepted_steps_partition _ _ _ _ _ _ H2). reflexivity.
 Qed.
+
+(* the offset handed to the stage Hamiltonians is the accepted time so far: position of the k-th event = sum of the
+   accepted steps before it (general-RK controller, started at 0) *)
+Lemma tdrk_pos_is_accepted_time (est : estimate) (target : Q) : forall fuel it g x tr g',
+  tdrk_loop fuel est target it g x = Some (tr, g') ->
+  forall tr1 e tr2, tr = tr1 ++ e :: tr2 -> e_pos e == x + acc_sum tr1.
+Proof.
+  induction fuel as [|f IH]; intros it g x tr g' Hr tr1 e tr2 E; [discriminate|]. cbn [tdrk_loop] in Hr.
+  destruct (Qlt_bool _ tdrk_p_restart).
+  - apply consE_some in Hr. destruct Hr as (tr' & Hr & Et). rewrite Et in E.
+    destruct tr1 as [|e1 tr1]; cbn [app] in E; inversion E; subst.
+    + cbn [e_pos]. change (acc_sum []) with 0. lra.
+    + rewrite acc_sum_cons. cbn [e_acc]. eapply IH; [exact Hr|reflexivity].
+  - destruct (Qeq_bool _ target).
+    + inversion Hr as [[Et Eg]]. rewrite <- Et in E.
+      destruct tr1 as [|e1 tr1]; cbn [app] in E; inversion E; subst.
+      * cbn [e_pos]. change (acc_sum []) with 0. lra.
+      * destruct tr1; discriminate.
+    + apply consE_some in Hr. destruct Hr as (tr' & Hr & Et). rewrite Et in E.
+      destruct tr1 as [|e1 tr1]; cbn [app] in E; inversion E; subst.
+      * cbn [e_pos]. change (acc_sum []) with 0. lra.
+      * rewrite acc_sum_cons. cbn [e_acc e_dt]. rewrite (IH _ _ _ _ _ Hr tr1 e tr2 eq_refl). lra.
+Qed.
